@@ -288,9 +288,27 @@ def run(chk, ctx) -> None:
     vp = [n for n in ast.walk(pa.node) if isinstance(n, ast.FunctionDef) and n.name == 'verify_player']
     vp_ok = len(vp) == 1 and any(isinstance(x, ast.If) and ctx.m.eq(T.cond(x.test), 'get_player_index() != index', boolean=True)
                                   and any(isinstance(r, ast.Raise) for r in x.body) for x in ast.walk(vp[0]))
+    # a player label is the letter p and the seat number, whatever its size: p10 is the tenth seat
+    gp = [n for n in ast.walk(pa.node) if isinstance(n, ast.FunctionDef) and n.name == 'get_player_index']
+    gp_ok = False
+    if len(gp) == 1:
+        rets = [n for n in ast.walk(gp[0]) if isinstance(n, ast.Return) and n.value is not None]
+        raises = [x for x in ast.walk(gp[0]) if isinstance(x, ast.If) and any(isinstance(r, ast.Raise) for r in x.body)]
+        env = {}
+        for n in ast.walk(gp[0]):
+            if isinstance(n, ast.Assign) and len(n.targets) == 1 and isinstance(n.targets[0], ast.Tuple) and isinstance(n.value, ast.Tuple):
+                for t, v in zip(n.targets[0].elts, n.value.elts):
+                    if isinstance(t, ast.Name):
+                        env[t.id] = T.norm(v)
+            elif isinstance(n, ast.Assign) and len(n.targets) == 1 and isinstance(n.targets[0], ast.Name):
+                env[n.targets[0].id] = T.norm(n.value)
+        gp_ok = len(rets) == 1 and T.norm(rets[0].value, env) == T.spec('int(player[1:]) - 1') and len(raises) == 1 \
+            and T.cond(raises[0].test, env) in (T.spec("player[:1] != 'p'", boolean=True), T.spec("not player.startswith('p')", boolean=True),
+                                                 T.spec("player[0] != 'p'", boolean=True))
+    vp_ok = vp_ok and gp_ok
     chk.ob('C16.verbs', 'reader_words', helpers_ok and vp_ok, pa.loc,
            'the words of an action end at `#`; a player label that is not the expected player is an error (never silently another player)',
-           got=f'words cut at #: {helpers_ok}; label check raises: {vp_ok}')
+           got=f'words cut at #: {helpers_ok}; label check raises: {vp_ok}; label = p + seat number of any size: {gp_ok}')
     sm = {}
     for n in ast.walk(pa.node):
         if not isinstance(n, ast.Match):
@@ -369,7 +387,8 @@ def _fields(chk, ctx, hh, fgs) -> None:
     consumed = {self_attr(n) for n in ast.walk(cg.node) if self_attr(n) in fields}
     consumed |= req_all
     populated = set()
-    for n in ast.walk(fgs.node):
+    for st in fgs.node.body:          # (statements of the function itself: a field that is filled in only under a condition is not filled in)
+        n = st.value if isinstance(st, ast.Expr) else None
         if isinstance(n, ast.Call) and isinstance(n.func, ast.Attribute) and n.func.attr == 'setdefault' \
                 and isinstance(n.func.value, ast.Name) and n.func.value.id == 'kwargs' and n.args and isinstance(n.args[0], ast.Constant):
             populated.add(n.args[0].value)
@@ -411,6 +430,19 @@ def _fields(chk, ctx, hh, fgs) -> None:
     chk.ob('C16.names', 'HandHistory.create_game', ok, cg.loc, 'antes / blinds_or_straddles are handed to the game as raw_antes / raw_blinds_or_straddles')
     pops = sorted(n.args[0].value for n in ast.walk(cg.node) if isinstance(n, ast.Call) and isinstance(n.func, ast.Attribute) and n.func.attr == 'pop'
                   and n.args and isinstance(n.args[0], ast.Constant))
+    # every field reaches the game as it stands in the history: the keyword table is filled by the display and by `kwargs[key] = getattr(self,
+    # name)` in the loop over the required names - nothing re-computes an entry afterwards
+    kw_names = {k.value.id for c in ast.walk(cg.node) if isinstance(c, ast.Call) for k in c.keywords if k.arg is None and isinstance(k.value, ast.Name)}
+    loop_vars = {lp.target.id for lp in ast.walk(cg.node) if isinstance(lp, ast.For) and isinstance(lp.target, ast.Name)
+                 and 'required_field_names' in ast.unparse(lp.iter)}
+    stores = [n for n in ast.walk(cg.node) if isinstance(n, (ast.Assign, ast.AugAssign)) for t in (n.targets if isinstance(n, ast.Assign) else [n.target])
+              if isinstance(t, ast.Subscript) and isinstance(t.value, ast.Name) and t.value.id in kw_names]
+    updates = [n for n in ast.walk(cg.node) if isinstance(n, ast.Call) and isinstance(n.func, ast.Attribute) and isinstance(n.func.value, ast.Name)
+               and n.func.value.id in kw_names and n.func.attr in ('update', 'setdefault', '__setitem__')]
+    plain = [n for n in stores if isinstance(n, ast.Assign) and any(T.norm(n.value) == T.spec(f'getattr(self, {v})') for v in loop_vars)]
+    chk.ob('C16.names', 'HandHistory.create_game:values_as_recorded', len(stores) == 1 and len(plain) == 1 and not updates, ctx.loc(cg, (stores + updates)[-1]) if (stores or updates) else cg.loc,
+           'a game parameter is the value recorded in the history (getattr(self, name)), set once and not adjusted afterwards',
+           got=[stmt_text(n, 70) for n in stores + updates])
     chk.ob('C16.names', 'HandHistory.create_game:non_game_fields', pops == ['actions', 'starting_stacks', 'variant'], cg.loc,
            'exactly the fields that are not game parameters are removed before the game is built', got=pops)
     # every remaining kwarg is a constructor parameter of every variant class
